@@ -600,6 +600,17 @@ func c15Run(c *vfCtx, cs c15Case) {
 			// "either reports an error or ..." : an error is an allowed answer only if nothing is returned as a result
 			return
 		}
+		// the result belongs to the caller: another matcher applied to another document afterwards must not change it
+		kept := append([]byte{}, out...)
+		if cs.Lang == "json" {
+			match.Any("k").Placeholder("overwritten overwritten overwritten").JSON([]byte(`{"k":"some other document that is long enough to fill a reused buffer","z":[1,2,3]}`))
+		} else {
+			match.Any("$.k").Placeholder("overwritten overwritten overwritten").YAML([]byte("k: some other document that is long enough to fill a reused buffer\nz: [1, 2, 3]\n"))
+		}
+		if !bytes.Equal(kept, out) {
+			c.violation(class, fmt.Sprintf("%s at %s: the returned document changed when ANOTHER matcher was applied to another document afterwards: %q became %q", cs.Kind, path, vfClip(string(kept)), vfClip(string(out))), cs)
+			return
+		}
 	} else {
 		dir := c.newWorld()
 		vfResetState(false, "", true)
